@@ -94,6 +94,8 @@ def options(rng, N):
               Lmin=int(rng.choice([1, 16, 64])), olap=float(rng.choice([0.5, 0.75])))
     if rng.random() < 0.35:
         kw["backend"] = str(rng.choice(["numpy", "numpy", "auto"]))   # every option is forwarded
+    if rng.random() < 0.3:
+        kw["verbose"] = True        # logging must not change what is computed
     kw.update(api.win_args({"kind": "hann", "name": "hann"} if rng.random() < 0.5 else
                            {"kind": "kaiser", "psll": float(rng.choice([80, 160, 200]))}))
     return kw
